@@ -5,8 +5,10 @@ proves that the parsed programs, run by the interpreter of Model/GoalSrc.v, comp
 Model/Goal.v, which the C08 theorems are about.
 
 Fail-closed: a statement, condition or frame outside the shapes listed in Model/GoalSrc.v raises SourceShapeError
-(reported as a broken obligation).  Locals may have any names; docstrings, annotations and the arguments of
-`raise ValueError(...)` are ignored.
+(reported as a broken obligation).  Every method is first brought into the normal form of vlib/astnorm.py (helper
+methods of the class inlined, comprehensions as loops, guard clauses and nested ifs as one decision tree, single-use
+temporaries and aliases removed - each step keeps the meaning), so that a harmless rewrite gives the same shapes.
+Locals may have any names; docstrings, annotations and the arguments of `raise ValueError(...)` are ignored.
 
 Trusted: this parser, and the meaning the interpreter gives to the accepted shapes (used_attributes = the attributes that
 are not None, has_value likewise; a Python set of attribute names = fld -> bool; copy.deepcopy gives a value that shares
@@ -19,6 +21,7 @@ import os
 
 from vlib.core import COQ, REPO
 from vlib.py2coq import write_if_changed
+from vlib import astnorm as N
 
 
 class SourceShapeError(Exception):
@@ -65,54 +68,29 @@ def attr_of(n, base):
 
 
 # ------------------------------------------------------------------------------------ frames: text up to local names
-class _Norm(ast.NodeTransformer):
-    def __init__(self, local_names):
-        self.map = {}
-        self.locals = local_names
-
-    def _nm(self, x):
-        if x in self.locals:
-            return self.map.setdefault(x, f"v{len(self.map)}")
-        return x
-
-    def visit_Name(self, n):
-        return ast.copy_location(ast.Name(id=self._nm(n.id), ctx=n.ctx), n)
-
-    def visit_arg(self, n):
-        return ast.arg(arg=self._nm(n.arg), annotation=None)
-
+class _StripRaise(ast.NodeTransformer):
     def visit_Raise(self, n):
         self.generic_visit(n)
         if isinstance(n.exc, ast.Call):
             n.exc = ast.Call(func=n.exc.func, args=[], keywords=[])
         return n
 
-    def visit_Call(self, n):
-        self.generic_visit(n)
-        if is_name(n.func, "list") and not n.args and not n.keywords:
-            return ast.List(elts=[], ctx=ast.Load())      # list() == []
-        return n
+
+KEEP = ("_harmonize_state_types", "_check_value_in_interval", "is_reached")
 
 
-def frame_text(fn):
-    fn = copy.deepcopy(fn)
-    fn.body = body_of(fn)
-    fn.returns = None
-    fn.decorator_list = []
-    local_names = {a.arg for a in fn.args.args}
-    for n in ast.walk(fn):
-        if isinstance(n, ast.Name) and isinstance(n.ctx, ast.Store):
-            local_names.add(n.id)
-    fn = _Norm(local_names).visit(fn)
-    ast.fix_missing_locations(fn)
-    return ast.unparse(fn)
+def frame_text(fn, methods=None):
+    """the function in normal form (helpers inlined, decision tree, temporaries removed: vlib/astnorm.py), arguments
+    of raise dropped, locals renamed in order of appearance"""
+    fn = _StripRaise().visit(N.normal(copy.deepcopy(fn), methods or {}, KEEP))
+    return N.alpha_text(fn)
 
 
 def ref_text(src):
     return frame_text(ast.parse(src).body[0])
 
 
-REF_IS_REACHED = ref_text('''
+REF_IS_REACHED_SRC = '''
 def is_reached(self, state):
     is_reached_list = []
     for goal_state in self.state_list:
@@ -124,9 +102,11 @@ def is_reached(self, state):
         if not goal_state_fields.issubset(state_fields):
             raise ValueError()
         is_reached = True
+        if goal_state.time_step is not None:
+            is_reached = is_reached and self._check_value_in_interval(state_new.time_step, goal_state.time_step)
         is_reached_list.append(is_reached)
     return np.any(is_reached_list)
-''')
+'''
 REF_CIV = ref_text('''
 def _check_value_in_interval(cls, value, desired_interval):
     if isinstance(desired_interval, (Interval, AngleInterval)):
@@ -149,32 +129,41 @@ def decorators(fn):
 
 
 # ------------------------------------------------------------------------------------ is_reached: the checks
-def parse_is_reached(fn):
+def split_is_reached(fn, methods):
+    """normal form of is_reached -> (normalised function, loop, name of the flag, check statements, text of the frame)"""
+    fn = _StripRaise().visit(N.normal(copy.deepcopy(fn), methods, KEEP))
     body = body_of(fn)
     if len(body) != 3 or not isinstance(body[1], ast.For) or body[1].orelse:
         bad(fn, "is_reached is not `list; for goal_state in self.state_list: ...; return any`")
     loop = body[1]
-    lb = list(loop.body)
-    # the statement `R = True` and the final append
+    # normal form of the loop body: ...; if goal_state_fields.issubset(state_fields): R = True; checks; append  else: raise
+    if not loop.body or not isinstance(loop.body[-1], ast.If):
+        bad(loop, "the loop body does not end with the subset test")
+    guard = loop.body[-1]
+    lb = list(guard.body)
     idx = [i for i, s in enumerate(lb) if isinstance(s, ast.Assign) and len(s.targets) == 1
            and isinstance(s.targets[0], ast.Name) and isinstance(s.value, ast.Constant) and s.value.value is True]
-    if len(idx) != 1 or not lb or idx[0] >= len(lb) - 1:
-        bad(loop, "no single `is_reached = True` before the checks")
-    r = lb[idx[0]].targets[0].id
-    checks_src = lb[idx[0] + 1:-1]
-    # frame = everything but the checks
+    if len(idx) != 1 or idx[0] != 0 or len(lb) < 2:
+        bad(guard, "the accepted branch does not start with a single `is_reached = True`")
     frame = copy.deepcopy(fn)
-    frame.body = [copy.deepcopy(body[0]), copy.deepcopy(loop), copy.deepcopy(body[2])]
-    frame.body[1].body = [copy.deepcopy(s) for s in lb[:idx[0] + 1] + [lb[-1]]]
-    if frame_text(frame) != REF_IS_REACHED:
-        raise SourceShapeError("the frame of GoalRegion.is_reached is not the expected one:\n" + frame_text(frame)
-                               + "\n-- expected --\n" + REF_IS_REACHED)
+    frame.body[1].body[-1].body = [copy.deepcopy(lb[0]), copy.deepcopy(lb[-1])]
+    return fn, loop, lb[0].targets[0].id, lb[1:-1], N.alpha_text(frame)
+
+
+REF_IS_REACHED = split_is_reached(ast.parse(REF_IS_REACHED_SRC).body[0], {})[4]
+
+
+def parse_is_reached(fn, methods):
     if decorators(fn):
         bad(fn, "is_reached carries a decorator")
+    fn, loop, r, checks_src, frame = split_is_reached(fn, methods)
+    if frame != REF_IS_REACHED:
+        raise SourceShapeError("the frame of GoalRegion.is_reached is not the expected one:\n" + frame
+                               + "\n-- expected --\n" + REF_IS_REACHED)
     self_ = fn.args.args[0].arg
     g_names = {loop.target.id}
     sn = None
-    for s in lb[:idx[0]]:
+    for s in loop.body[:-1]:
         if isinstance(s, ast.Assign) and isinstance(s.targets[0], ast.Tuple) and isinstance(s.value, ast.Call) \
                 and ast.unparse(s.value.func) == f"{self_}._harmonize_state_types":
             sn = s.targets[0].elts[0].id
@@ -322,14 +311,21 @@ def text():
         raw = open(os.path.join(REPO, rel), "rb").read()
         src[k] = hashlib.sha1(raw).hexdigest()
         trees[k] = ast.parse(raw)
-    hc, hb = parse_harmonize(find_method(trees["goal"], "GoalRegion", "_harmonize_state_types"))
-    checks = parse_is_reached(find_method(trees["goal"], "GoalRegion", "is_reached"))
+    gm = N.class_methods(trees["goal"], "GoalRegion")
+    pm = N.class_methods(trees["pp"], "PlanningProblem")
+    hfn = find_method(trees["goal"], "GoalRegion", "_harmonize_state_types")
+    if decorators(hfn) != ["staticmethod"]:
+        raise SourceShapeError("_harmonize_state_types is not a staticmethod")
+    hn = N.normal(hfn, gm, KEEP)
+    hn.decorator_list = hfn.decorator_list
+    hc, hb = parse_harmonize(hn)
+    checks = parse_is_reached(find_method(trees["goal"], "GoalRegion", "is_reached"), gm)
     civ = find_method(trees["goal"], "GoalRegion", "_check_value_in_interval")
-    if decorators(civ) != ["classmethod"] or frame_text(civ) != REF_CIV:
-        raise SourceShapeError("GoalRegion._check_value_in_interval is not the expected text:\n" + frame_text(civ))
+    if decorators(civ) != ["classmethod"] or frame_text(civ, gm) != REF_CIV:
+        raise SourceShapeError("GoalRegion._check_value_in_interval is not the expected text:\n" + frame_text(civ, gm))
     gr = find_method(trees["pp"], "PlanningProblem", "goal_reached")
-    if decorators(gr) or frame_text(gr) != REF_GOAL_REACHED:
-        raise SourceShapeError("PlanningProblem.goal_reached is not the expected text:\n" + frame_text(gr))
+    if decorators(gr) or frame_text(gr, pm) != REF_GOAL_REACHED:
+        raise SourceShapeError("PlanningProblem.goal_reached is not the expected text:\n" + frame_text(gr, pm))
     out = ["(* GENERATED on every run by harness/props/c08_src.py from the syntax trees of GoalRegion._harmonize_state_types, "
            "is_reached, _check_value_in_interval and PlanningProblem.goal_reached.  Do not edit.",
            "   sources: " + ", ".join(f"{FILES[k]} sha1={src[k]}" for k in sorted(FILES)) + " *)",
